@@ -16,3 +16,28 @@ package config
 //@   loop 1 invariant 0 <= i && i <= keyLen && keyLen == 32 && (forall j int :: 0 <= j && j < i ==> isHexLower(key[j]))
 //@   loop 2 invariant 6 <= i && i <= keyLen && keyLen == 64 && (forall j int :: 6 <= j && j < i ==> isAlnumLower(key[j]))
 //@   modifies nothing
+
+// ---- C24: ingest authorization and key replacement.
+// Oracle: refinery_config.md (AcceptOnlyListedKeys "is applied **before** the SendKey
+// and SendKeyMode settings"; the SendKeyMode option list) and the property statement.
+
+//@ spec keyListed(a AccessKeyConfig, key string, keyID string) bool := slices.Contains(a.ReceiveKeys, key) || (keyID != "" && slices.Contains(a.ReceiveKeyIDs, keyID))
+//@ spec keyAccepted(a AccessKeyConfig, key string, keyID string) bool := !a.AcceptOnlyListedKeys || (a.SendKey != "" && key == a.SendKey) || keyListed(a, key, keyID)
+//@ spec keyReplaced(a AccessKeyConfig, key string, keyID string) string := ite(a.SendKey == "", key, ite(a.SendKeyMode == "all", a.SendKey, ite(a.SendKeyMode == "nonblank", ite(key != "", a.SendKey, key), ite(a.SendKeyMode == "listedonly", ite(keyListed(a, key, keyID), a.SendKey, key), ite(a.SendKeyMode == "missingonly", ite(key == "", a.SendKey, key), ite(a.SendKeyMode == "unlisted", ite(key != "" && !keyListed(a, key, keyID), a.SendKey, key), key))))))
+
+//@ contract config.(*AccessKeyConfig).IsAccepted props C24
+//@   requires a != nil
+//@   ensures[accepted-iff] (result == nil) == keyAccepted(*a, key, keyID)
+//@   modifies nothing
+
+//@ contract config.(*AccessKeyConfig).GetReplaceKey props C24
+//@   requires a != nil
+//@   ensures[table] result1 == nil ==> result0 == keyReplaced(*a, apiKey, keyID)
+//@   ensures[never-blank] (result1 == nil) == (keyReplaced(*a, apiKey, keyID) != "")
+//@   ensures[no-key-on-error] result1 != nil ==> result0 == ""
+//@   modifies nothing
+
+//@ contract config.(*AccessKeyConfig).HasKeyIDs props C24
+//@   requires a != nil
+//@   ensures result == (len(a.ReceiveKeyIDs) > 0)
+//@   modifies nothing
